@@ -25,9 +25,14 @@ fn inners(n: usize) -> Vec<Spec> {
 }
 
 fn unary_chain<T: Scalar>(outer: Kind, n_out: usize, inner: &Spec, alpha: &[f64], depth: usize, st: &mut Stats, sink: &Sink) {
-    let chain_spec = mk(outer, n_out, inner.clone());
+    chain_of::<T>(&mk(outer, n_out, Spec::echo()), inner, alpha, depth, st, sink)
+}
+
+/// `outer` is any program over Echo (one or more levels); the chain is `outer` with its leaf replaced by `inner`
+fn chain_of<T: Scalar>(outer: &Spec, inner: &Spec, alpha: &[f64], depth: usize, st: &mut Stats, sink: &Sink) {
+    let chain_spec = outer.with_leaf(inner);
     let (probed, nprobes) = chain_spec.with_probes();
-    let b_spec = mk(outer, n_out, Spec::echo());
+    let b_spec = outer.clone();
     let built = guard(|| S::<T> { chain: build::<T>(&probed), a: build::<T>(inner), b: Some(build::<T>(&b_spec)) });
     let root = match built {
         Ok(r) => r,
@@ -207,6 +212,26 @@ pub fn run(ctx: &Ctx) -> CheckOutput {
                     JobOut { stats: st, viols: sink.take(), samples: vec![json!({"explorer":"TREE","scalar":"f64","outer":format!("{:?}({})", e.kind, on),"inner":"every catalogue view over a leaf, window","inner_n":inn,"depth":depth})] }
                 }));
             }
+        }
+    }
+    // thorough: three-level chains C(B(A(leaf))) over a pool of 12 views with different readiness,
+    // decomposed as stand-alone A feeding the two-level chain C(B(Echo))
+    if !quick {
+        use Kind::*;
+        let pool: Vec<Spec> = [Sma, Ema, Roc, Cumulative, Min, Vst, Rsi, MyRsi, SuperSmoother, GTE, Tanh, HLNormalizer].iter().map(|k| mk(*k, 2, Spec::echo())).collect();
+        for c in pool.clone() {
+            let pool = pool.clone();
+            jobs.push(Box::new(move || {
+                let mut st = Stats::default();
+                let sink = Sink::new();
+                for b in &pool {
+                    let outer = c.with_leaf(b);
+                    for a in &pool {
+                        chain_of::<f64>(&outer, a, &Z3, 7, &mut st, &sink);
+                    }
+                }
+                JobOut { stats: st, viols: sink.take(), samples: vec![json!({"explorer":"TREE","three_level_chains":"C(B(A(leaf)))","C":c.name(),"pool":12,"depth":7})] }
+            }));
         }
     }
     // binary combinators over every ordered pair
